@@ -813,3 +813,31 @@ def sp_str_replace(I, st, args, kwargs):
 @spec('parse_float')
 def sp_parse_float(I, st, args, kwargs):
     return VReal(_ps(I)['PFLOAT'](args[0].t))
+
+
+# ----------------------------------------------------------------------------- line formats (C16)
+@spec('tsv_line')
+def sp_tsv_line(I, st, args, kwargs):
+    """the rendered line of a field list: sep.join(fields) + terminator."""
+    from . import sym as _sym
+    fields, sep, term = args
+    d = I.stubs._lsym()
+    return VStr(_sym.PCONCAT(d['JOIN'](sep.t, fields.length, fields.arr), term.t))
+
+
+@spec('csv_parse')
+def sp_csv_parse(I, st, args, kwargs):
+    from .sym import from_term
+    d = I.stubs._lsym()
+    return from_term(d['CSVREC'](args[0].t), ('list', 'pstr'))
+
+
+@spec('fn_list')
+def sp_fn_list(I, st, args, kwargs):
+    """fn_list("name", a, ...): like fn(), for function symbols whose value is a list of strings."""
+    from .sym import from_term, sort_of, parse_kind
+    name = args[0].concrete()
+    terms = [t for a in args[1:] for t in I.flatten_terms(a)]
+    k = parse_kind('list[str]')
+    F = z3.Function(name, *[t.sort() for t in terms], sort_of(k))
+    return from_term(F(*terms), k)
